@@ -285,6 +285,19 @@ pub fn death_scenarios(class: &str, topos: &[&str], windows: &[usize], delays: &
     v
 }
 
+/// Judge for link-pattern scenarios: the pattern itself decides whether a drop happens.
+pub fn judge_patterns(scn: &Scenario, res: &ExecResult, b: Option<&ExecResult>) -> Vec<Violation> {
+    let mut out = judge(scn, res, b);
+    // node 0 may have disconnected node 1 (silence longer than the timeout): then its timeline
+    // for node 1's players must be coherent and it must keep advancing
+    let dead_addr = scn.peers[1].addr;
+    if let Some(r) = res.nodes[0].events.iter().find(|e| e.2 == Ev::Disconnected { addr: dead_addr }).map(|e| e.0) {
+        check_survivor_timeline(scn, res, 0, 1, None, &mut out);
+        progress_after(res, 0, r, &mut out);
+    }
+    out
+}
+
 /// Multiplies a scenario set by (latency, input program, predictor) variations.
 pub fn vary(scns: Vec<Scenario>) -> Vec<Scenario> {
     let mut out = Vec::with_capacity(scns.len() * 5);
@@ -379,6 +392,29 @@ pub fn c07() -> i32 {
         let cfg = ExploreCfg { k: Some(0), wall: Duration::from_secs(if t { 900 } else { 30 }), ..Default::default() };
         let out = explore(&scns, &cfg, &judge);
         rep.absorb("silences of every length from 1 round to timeout+4 rounds, one or both directions", out, &props, json!({"k": 0, "scenarios": n}));
+    }
+    // ---- every up/down pattern of the link from the remote, round by round
+    {
+        let mut scns = Vec::new();
+        let depth = if t { 15 } else { 11 };
+        for (w, d, sparse) in [(2usize, 0usize, false), (0, 0, false), (8, 2, true)] {
+            let mut s = base_scn("drop-link-patterns", "1+1", w, d, sparse, Pred::RepeatLast, Program::Changing, 1);
+            for p in s.peers.iter_mut() {
+                p.notify_ms = 50;
+                p.timeout_ms = 150;
+            }
+            let (a, b) = (s.peers[0].addr, s.peers[1].addr);
+            s.fault = packet_faults(2, depth, 0, Vec::new(), 0);
+            s.fault.link_rounds = vec![vec![(b, a)]];
+            s.horizon = 2 + depth;
+            s.probe = 40;
+            s.checks = CK_DROP;
+            scns.push(s);
+        }
+        let cfg = ExploreCfg { k: Some(depth as usize), wall: Duration::from_secs(if t { 900 } else { 40 }), ..Default::default() };
+        let n = scns.len();
+        let out = explore(&scns, &cfg, &judge_patterns);
+        rep.absorb("every up/down pattern of the link from the remote peer over the window (notify 50 ms, timeout 150 ms): events against the timer model; when the pattern disconnects the peer, the survivor's timeline and progress", out, &props, json!({"k": "all subsets of the window", "window_rounds": depth, "configs": n}));
     }
     // ---- explicit disconnect_player at every round
     {
